@@ -45,7 +45,7 @@ def run(ctx):
 
     tr = ctx.path("hash_trace.ndjson")
     if ctx.thorough:
-        args = ["--splits", 600, "--tagrounds", 4, "--cbors", 400, "--nonces", 300, "--values", 6]
+        args = ["--splits", 1500, "--tagrounds", 6, "--cbors", 1000, "--nonces", 800, "--values", 10]
     else:
         args = ["--splits", 60, "--tagrounds", 1, "--cbors", 40, "--nonces", 30, "--values", 1]
     ctx.run_bin(binary, ["hash-trace", "--seed", ctx.seed, "--maxlen", 4096, "--out", tr] + args)
